@@ -73,6 +73,13 @@ func TestVerifC06(t *testing.T) {
 	for h := 0; h < nh; h++ {
 		seed := rng.Int63()
 		c06History(t, o, seed, keyTypes, h)
+		if h < 4 {
+			// the fall-back issuer issues first (its folder gets the key), the certificate disappears, the
+			// first issuer comes back: key reuse puts the issuer that holds the key first — the bundle of
+			// each issuance lies under the issuer that made it; then a renewal answered by the fall-back again
+			c06History(t, o, seed+1, keyTypes, h, "obtain", "dropcert", "flip", "obtain", "flip", "renew", "flip", "renew")
+			o.Stat("scripted_two_issuer_histories", 1)
+		}
 	}
 	c06Newest(t, o, rng)
 	c06SharedKeyCompromise(t, o)
@@ -126,7 +133,9 @@ func c06SharedKeyCompromise(t *testing.T, o *vOut) {
 	}
 }
 
-func c06History(t *testing.T, o *vOut, seed int64, keyTypes []KeyType, idx int) {
+// script: when given, the operations of the history (two issuers, key reuse on, the first issuer
+// down at the start) instead of random ones
+func c06History(t *testing.T, o *vOut, seed int64, keyTypes []KeyType, idx int, script ...string) {
 	rng := rand.New(rand.NewSource(seed))
 	subj := c06Subjects[idx%len(c06Subjects)]
 	kt := keyTypes[rng.Intn(len(keyTypes))]
@@ -135,6 +144,9 @@ func c06History(t *testing.T, o *vOut, seed int64, keyTypes []KeyType, idx int) 
 	}
 	reuse := rng.Intn(2) == 0
 	nIss := 1 + rng.Intn(2)
+	if script != nil {
+		reuse, nIss = true, 2
+	}
 	synctest.Test(t, func(t *testing.T) {
 		st := vNewMem()
 		var issuers []Issuer
@@ -145,6 +157,9 @@ func c06History(t *testing.T, o *vOut, seed int64, keyTypes []KeyType, idx int) 
 			issuers = append(issuers, vi)
 		}
 		failFirstIssuer := nIss == 2 && rng.Intn(2) == 0
+		if script != nil {
+			failFirstIssuer = true
+		}
 		if failFirstIssuer {
 			viss[0].Behave = func(int, []string) error { return fmt.Errorf("verif: first issuer down") }
 		}
@@ -160,9 +175,14 @@ func c06History(t *testing.T, o *vOut, seed int64, keyTypes []KeyType, idx int) 
 		var opsTok, obsTok []string
 		compromised := map[int]bool{}
 		nops := 1 + rng.Intn(4)
+		if script != nil {
+			nops = len(script)
+		}
 		for step := 0; step < nops; step++ {
 			op := "obtain"
-			if step > 0 {
+			if script != nil {
+				op = script[step]
+			} else if step > 0 {
 				op = []string{"renew", "renew", "compromise", "obtain", "dropcert", "obtainfault", "obtain", "revokekc"}[rng.Intn(8)]
 				if nIss == 2 && rng.Intn(4) == 0 {
 					op = "flip" // the first issuer goes down / comes back: the other one answers meanwhile
